@@ -50,6 +50,11 @@ X_REJ = {
     "invalid-syscall": "proc main() is 3(0)",
     "non-constant-array-length": "var n; array a[n]; proc main() is skip",
     "late-error": "proc f() is skip\n" + "proc main() is { f(); g() }",
+    # errors that carry no source location (found after the front end: there is no main to branch to)
+    "no-main": "proc p() is skip\n",
+    "empty-source": "",
+    "declarations-only": "var x;\nval k = 3;\narray a[4];\n",
+    "main-is-a-variable": "var main;\nproc p() is main := 1\n",
 }
 for _n in sorted(os.listdir(os.path.join(REPO, "tests/asm"))):
     if _n.endswith(".S"): ASM_ACC.setdefault("shipped:" + _n, rd(os.path.join(REPO, "tests/asm", _n)).decode("latin1"))
@@ -263,9 +268,14 @@ def exec_case(i, c):
                     elif exited and rc1 != (c["value"] & 0xFF):
                         v.append((tool + "-status-under-limit", "%s --max-cycles %d: the trace shows exit(%d) was executed but the status is %s (%s)" % (tool, c["limit"], c["value"], rc1, se1[:80])))
         elif c["kind"] == "xrun-rejected":
+            # a good program is run first in the same directory: whatever it left behind must not be what the rejected source "runs"
+            open(os.path.join(d, "good.x"), "w").write("proc main() is { 1('o', 0); 1('k', 0); 0(7) }")
+            run([T["xrun"], "good.x"], d, stdin=b"")
             open(os.path.join(d, "p.x"), "w").write(c["text"])
             rc2, so2, se2 = run([T["xrun"], "p.x"], d, stdin=c["stdin"])
             info = {"xrun": rc2}
+            if so2:
+                v.append(("xrun-ran-something-for-a-rejected-source", "xrun wrote %r to stdout for a rejected source (%s)" % (so2[:40], c["src"])))
             if rc2 == 0:
                 v.append(("xrun-status-zero-on-error", "xrun exits 0 for a rejected source (%s)" % c["src"]))
             if not se2.strip():
